@@ -339,6 +339,10 @@ struct CDlistWorld
             VP_CHECK(dlist_check(h, bound) == n && dlist_check_reversed(h, bound) == n && dlist_is_correct(h), "c_dlist_check",
                      "L%zu dlist_check=%d reversed=%d is_correct=%d, %d elements", l, dlist_check(h, bound), dlist_check_reversed(h, bound),
                      (int)dlist_is_correct(h), n);
+            // the bounded walkers need exactly n+1 looks to see an n-element ring close
+            VP_CHECK(dlist_check(h, n + 1) == n && dlist_check_reversed(h, n + 1) == n, "c_dlist_check_tight",
+                     "L%zu with %d elements: dlist_check(h,%d)=%d dlist_check_reversed(h,%d)=%d", l, n, n + 1, dlist_check(h, n + 1), n + 1,
+                     dlist_check_reversed(h, n + 1));
             VP_CHECK(h->next->prev == h && h->prev->next == h, "c_dlist_symmetry", "L%zu head: neighbours do not point back", l);
             for (size_t i = 0; i < nodes.size(); i++)
             {
@@ -726,6 +730,19 @@ struct CxxDlistWorld
             std::vector<int> fwd, rev, rev2;
             for (auto it = L.begin(); it != L.end(); ++it)
                 fwd.push_back(it->id);
+            {
+                // the same list through a const reference (the const begin()/end() overloads, range-for)
+                const auto &CL = L;
+                std::vector<int> cfwd, cfor;
+                for (auto it = CL.begin(); it != CL.end(); ++it)
+                    cfwd.push_back(it->id);
+                for (auto &x : CL)
+                    cfor.push_back(x.id);
+                VP_CHECK(cfwd == ring[l] && cfor == ring[l], "cxx_dlist_const_forward", "L%zu through a const reference: begin()..end() %s, range-for %s, reference %s", l,
+                         seq_str(cfwd).c_str(), seq_str(cfor).c_str(), seq_str(ring[l]).c_str());
+                VP_CHECK(CL.size() == ring[l].size() && CL.empty() == ring[l].empty(), "cxx_dlist_const_size", "L%zu through a const reference: size()=%zu empty()=%d, reference %zu",
+                         l, CL.size(), (int)CL.empty(), ring[l].size());
+            }
             for (auto it = L.rbegin(); it != L.rend(); ++it)
                 rev.push_back(it->id);
             for (auto it = L.end(); it != L.begin();)
